@@ -1320,7 +1320,8 @@ def c11_gen(tier, rng):
         e = G.parenthesize_seq(raw) if raw[0] in ("tuple", "chain") else G.parenthesize(raw)
         src = G.render(G.flatten(e), None, "space")
         kind = rng.choice(["H", "N"])
-        ops = C12_SETUP + ["dump", "evc smv " + hexs(src), "ev srv " + hexs(src), "dump"]
+        extra = rng.choice([[], [], ["off 1"], ["setfn %s konst:I777" % hexs(rng.choice(["min", "len", "typeof"]))], ["off 1", "setfn %s id" % hexs("max")]])
+        ops = C12_SETUP + extra + ["dump", "evc smv " + hexs(src), "ev srv " + hexs(src), "dump"]
         cases.append((G.script(kind, ops), {"kind": "agree", "src": src, "ctx": kind}))
     # contexts without variable storage / read-only kinds
     for src in ["a = 1", "a += 1", "1; a = 2", "q = 1; q", "1 + (z = 2)"]:
@@ -1637,7 +1638,9 @@ def c09_cases(names_builtin, names_other, rng, full):
                                     setup.append(post)
                             disabled = {"E": True, "EB": False}.get(kind, off)
                             has_user = userfn and post != "clrf"
-                            forms = [("%s(3)" % n, "I3"), ("%s 3" % n, "I3"), ("%s()" % n, "E"), ("%s(3, 4)" % n, "T(I3,I4)")]
+                            forms = [("%s(3)" % n, "I3"), ("%s 3" % n, "I3"), ("%s()" % n, "E"), ("%s(3, 4)" % n, "T(I3,I4)"),
+                                     ('%s "s"' % n, "S" + hexs("s")), ("%s true" % n, "B1"), ("%s 2.5" % n, "F4004000000000000"),
+                                     ("%s x" % n, "I5") if kind in ("H", "N") else ("%s (())" % n, "E")]
                             if kind in ("H", "N") and post != "clrf":
                                 forms.append(("wrap %s 3" % n, "I3"))
                             ops = list(setup)
@@ -1905,6 +1908,11 @@ def c06_gen(tier, rng):
     # strings
     for t in G.STRINGS + ["//", "/* x */", "a + b", "\n\t", "\\\\", '""', "\\\"", "𝄞\u0000x"] + [G.rand_unicode_string(rng, 12) for _ in range(n)]:
         tree(quote(t), "OK (RootNode (Const:S%s))" % hexs(t))
+    interesting = list("\r\n\t\0 \\\"'/*+-=!<>&|(),;.eExX019azAZ_:#%^~`@$?[]{}") + ["\u000b", "\u000c", "\u0085", "\u00a0", "\u2028", "\u2029", "\u3000", "\ufeff", "\u200b", "ä", "€", "𝄞", "\u0301", "\U0010ffff", "\ud7ff", "\ue000"]
+    for c1 in interesting:
+        for c2 in interesting:
+            t = "a" + c1 + c2 + "b"
+            tree(quote(t), "OK (RootNode (Const:S%s))" % hexs(t))
     for _ in range(n // 10):
         t, u = G.rand_unicode_string(rng, 5), G.rand_unicode_string(rng, 5)
         ev(quote(t) + "+" + quote(u), "OK S" + hexs(t + u))
@@ -2197,9 +2205,19 @@ def c15_special(tier, rng, hooks):
     cov["purity_audit_findings"] = pur
     # stress: shared Arc<Node> x Arc<HashMapContext>, 16 threads
     progs = []
-    for i in range(300 if tier == "quick" else 3000):
+    # every operator and every builtin on operands of every type bound in the shared context, then random programs
+    srcs = []
+    for op in G.BINOPS:
+        for l, r in (("a", "a"), ("b", "a"), ("s", "s"), ('"x"', '"y"'), ("t", "t"), ("true", "false"), ("a", "s")):
+            srcs.append("%s %s %s" % (l, op, r))
+    for n in L.DOCUMENTED_BUILTINS:
+        for arg in ("a", "b", "s", "t", "(a, b)", "(s, 0, 1)", "(true, a, s)", "(t, 1)", "()"):
+            srcs.append("%s(%s)" % (n, arg))
+    srcs += ["f(a) + f(b)", "(a, b, s, t)", "a; b; s", "-a", "!true", 's + s + s + s', 'str::from(t) + str::from(b)']
+    for _ in range(200 if tier == "quick" else 3000):
         raw = G.rand_expr(rng, rng.randint(1, 5), allow_asg=False)
-        src = G.render(G.flatten(G.parenthesize(raw)), None, "space")
+        srcs.append(G.render(G.flatten(G.parenthesize(raw)), None, "space"))
+    for i, src in enumerate(srcs):
         progs.append("%d\t%s" % (i, hexs(src)))
     os.makedirs(L.WORK, exist_ok=True)
     path = os.path.join(L.WORK, "threads.cases")
